@@ -308,7 +308,7 @@ M_DE = {
 H_FN = ["LoopHandle::remove", "LoopHandle::disable", "LoopHandle::update", "LoopHandle::enable",
         "LoopHandle::register_dispatcher", "LoopHandle::insert_idle", "io::Async::new", "io::LoopInner::kill"]
 M_H = {
-    "remove": M("handle_remove", OB.ob_handle_remove, OB.ob_handle_remove.__doc__, H_FN[:1], "all paths (loop-free)", replay=["c06_removal_scenarios", "c01_routing_scenarios", "c16_removed_in_callback", "c08_reentrancy_scenarios", "d15_remove_with_failing_unregister_lifecycle"]),
+    "remove": M("handle_remove", OB.ob_handle_remove, OB.ob_handle_remove.__doc__, H_FN[:1], "all paths (loop-free)", replay=["c06_removal_scenarios", "c01_routing_scenarios", "c16_removed_in_callback", "c08_reentrancy_scenarios", "d15_remove_with_failing_unregister_lifecycle", "d16_remove_source_whose_drop_reenters_the_loop"]),
     "disable": M("handle_disable", OB.ob_handle_disable, OB.ob_handle_disable.__doc__, H_FN[1:2], "all paths (loop-free)", replay=["c01_routing_scenarios", "d3_pending_action_error_path", "c08_reentrancy_scenarios"]),
     "update": M("handle_update", OB.ob_handle_update, OB.ob_handle_update.__doc__, H_FN[2:3], "all paths (loop-free)", replay=["c01_routing_scenarios", "d3_pending_action_error_path", "c05_timer_scenarios"]),
     "enable": M("handle_enable", OB.ob_handle_enable, OB.ob_handle_enable.__doc__, H_FN[3:4], "all paths (loop-free)", replay=["c01_routing_scenarios", "c05_timer_scenarios", "c15_failed_registration"]),
